@@ -84,28 +84,34 @@ def wrapU (x : Int) : Nat := (x % 18446744073709551616).toNat
 
 def floatIsZero (bits : UInt64) : Bool := bits == 0 || bits == 0x8000000000000000
 
-/-- `reflect.Value.IsZero` on the modelled kinds; `none` = outside the fragment -/
-partial def isZero : Val → Option Bool
-  | .invalid => none   -- IsZero panics on an invalid Value; callers check IsValid first
-  | .bool b => some (!b)
-  | .int i => some (i == 0)
-  | .uint u => some (u == 0)
-  | .float b => some (floatIsZero b)
-  | .str s => some s.isEmpty
-  | .bytes _ => some false       -- generators only make non-nil []byte
-  | .slice _ _ n => some n
-  | .smap _ _ n => some n
-  | .struct _ fs => fs.foldl (fun acc f => match acc, isZero f.2 with
+/-- `reflect.Value.IsZero` on the modelled kinds (structs to a bounded depth); `none` = outside the
+    fragment -/
+def isZeroD : Nat → Val → Option Bool
+  | _, .invalid => none   -- IsZero panics on an invalid Value; callers check IsValid first
+  | _, .bool b => some (!b)
+  | _, .int i => some (i == 0)
+  | _, .uint u => some (u == 0)
+  | _, .float b => some (floatIsZero b)
+  | _, .str s => some s.isEmpty
+  | _, .bytes _ => some false       -- generators only make non-nil []byte
+  | _, .slice _ _ n => some n
+  | _, .smap _ _ n => some n
+  | 0, .struct _ _ => none
+  | d + 1, .struct _ fs => fs.foldl (fun acc f => match acc, isZeroD d f.2 with
       | some a, some z => some (a && z)
       | _, _ => none) (some true)
-  | .ptr _ t => some t.isNone
-  | .iface .invalid => some true
-  | .iface _ => some false
-  | .func _ | .jfunc _ | .swriter _ => some false
-  | .hidden b => some (!b)
-  | .errv _ _ => some false
-  | .intsRanger _ _ => some false
-  | .opaque _ => none
+  | _, .ptr _ t => some t.isNone
+  | _, .iface .invalid => some true
+  | _, .iface _ => some false
+  | _, .func _ => some false
+  | _, .jfunc _ => some false
+  | _, .swriter _ => some false
+  | _, .hidden b => some (!b)
+  | _, .errv _ _ => some false
+  | _, .intsRanger _ _ => some false
+  | _, .opaque _ => none
+
+def isZero (v : Val) : Option Bool := isZeroD 8 v
 
 /-- eval.go `isTrue`: `v.IsValid() && !v.IsZero()` -/
 def isTrue (v : Val) : Option Bool :=
@@ -217,17 +223,27 @@ def printValue (v : Val) : Option (List Piece) :=
 
 /-! ### escapers -/
 
+def entQuot : Bytes := [38, 35, 51, 52, 59]    -- &#34;
+def entApos : Bytes := [38, 35, 51, 57, 59]    -- &#39;
+def entAmp : Bytes := [38, 97, 109, 112, 59]   -- &amp;
+def entLt : Bytes := [38, 108, 116, 59]        -- &lt;
+def entGt : Bytes := [38, 103, 116, 59]        -- &gt;
+def replacementChar : Bytes := [0xEF, 0xBF, 0xBD]  -- U+FFFD
+
+/-- what `text/template.HTMLEscape` emits for one byte -/
+def htmlEscapeByte (c : UInt8) : Bytes :=
+  if c = 34 then entQuot
+  else if c = 39 then entApos
+  else if c = 38 then entAmp
+  else if c = 60 then entLt
+  else if c = 62 then entGt
+  else if c = 0 then replacementChar
+  else [c]
+
 /-- `text/template.HTMLEscape` at byte level -/
 def htmlEscape : Bytes → Bytes
   | [] => []
-  | c :: cs =>
-    (if c == 34 then asciiBytes "&#34;"
-     else if c == 39 then asciiBytes "&#39;"
-     else if c == 38 then asciiBytes "&amp;"
-     else if c == 60 then asciiBytes "&lt;"
-     else if c == 62 then asciiBytes "&gt;"
-     else if c == 0 then [0xEF, 0xBF, 0xBD]
-     else [c]) ++ htmlEscape cs
+  | c :: cs => htmlEscapeByte c ++ htmlEscape cs
 
 /-- the SafeWriters known to the model: what one `Write(b)` through them emits -/
 def applyEscaper (name : String) (b : Bytes) : Option Bytes :=
